@@ -315,6 +315,41 @@ def check_apart(acc):
                 fixed_point(acc, text, {'text': text, 'cell': t, 'cls': APART}, APART)
 
 
+def _same_text_job(_seed):
+    """canonicity where the SAME text occurs first as free text and later as a kern note in the same column (and the other way round): the note's normal form must be
+    the one it has in a document of its own; the documents must also be fixed points"""
+    from .c03 import same_text_models
+    acc = Acc()
+    normal = {}
+    for m in same_text_models():
+        text = m.text()
+        case = {'text': text, 'headers': m.headers, 'seq': ['same-text'], 'seed': 0}
+        acc.count('evaluations')
+        acc.state(digest(text))
+        acc.nontriv(digest(text))
+        r = fixed_point(acc, text, case, 'document')
+        try:
+            doc, _ = kp.loads(text)
+            k1 = kp.dumps(doc, spine_types=m.headers).split('\n')
+            e1 = kp.dumps(doc, spine_types=m.headers, encoding=kp.Encoding.eKern).split('\n')
+        except Exception as e:  # noqa
+            acc.violation(Viol('document', 'raises', case, None, f'{type(e).__name__}: {str(e)[:80]}'))
+            continue
+        for ri, (kind, row) in enumerate(m.rows):
+            for c in (row if kind == 'c' else ()):
+                if c.spec['k'] != 'n':
+                    continue
+                src = c.src
+                if src not in normal:
+                    d1, _ = kp.loads(f'**kern\n{src}\n*-\n')
+                    normal[src] = (kp.dumps(d1).split('\n')[1], kp.dumps(d1, encoding=kp.Encoding.eKern).split('\n')[1])
+                got = (k1[ri].split('\t')[c.col], e1[ri].split('\t')[c.col])
+                acc.count('transitions')
+                if got != normal[src]:
+                    acc.violation(Viol('document', 'normal-form-of-a-note-depends-on-where-its-text-occurred-before', dict(case, note=src), normal[src], got))
+    return acc
+
+
 def run(ctx):
     quick = ctx.quick
     ctx.rule = ('(a) every abstract note x every written variant of its signifier set (order, slot, doubling); (b) all row sequences up to the depth bound and all <=k '
@@ -336,11 +371,14 @@ def run(ctx):
     nc = len(cell_corpus(ctx.tier))
     ctx.bounds['cell_corpus'] = {'cells': nc, 'frames': [f[0] for f in FRAMES]}
     ctx.pmap(_cell_job, [(lo, lo + 100, ctx.tier) for lo in range(0, nc, 100)], chunksize=1)
+    ctx.pmap(_same_text_job, [0], chunksize=1)
     ctx.pmap(_doc_job, [[j] for j in D.long_docs(ctx.seed) + D.huge_docs(ctx.seed + 2) + D.giant_jobs(ctx.seed) + D.aligned_jobs(ctx.seed) + [(['**kern'], ['DISTINCT'], ctx.seed)]] + list(X.chunks(jobs, 150)), chunksize=1)
 
 
 def replay(case):
     acc = Acc()
+    if case.get('seq') == ['same-text']:
+        return _same_text_job(0).viol
     if 'abstract' in case and 'seq' not in case:
         batch = []
         for kind, dur, pit, ac, sigs in case['abstract']:
